@@ -263,6 +263,16 @@ def adfStep (a : AdfSt) (l : String) (ws : List String) : Option (List String ×
       match a.pipe p with
       | some (s, _) => some ([l, s!"= {dumpTable s.nodes}"], a)
       | none => some ([l, "= bad-request"], a)
+    else if what == "facets" then
+      -- `Adf::facet_count`: naive model counts and 2·|dependencies| when the count exceeds 2
+      match a.pipe p with
+      | some (s, ac) =>
+        let cs := ac.map (fun t =>
+          let c := countF s (t + 1) t
+          let d := (sortDedup (depsOf s t)).length
+          s!"{c.1},{c.2.1},{if c.1 > 2 then 2 * d else 0},{if c.2.1 > 2 then 2 * d else 0}")
+        some ([l, "= " ++ (if cs.isEmpty then "-" else joinWith " " cs)], a)
+      | none => some ([l, "= bad-request"], a)
     else if what == "counts" then
       match a.pipe p with
       | some (s, ac) =>
